@@ -74,6 +74,22 @@ func guarded(entryFull string, inputLen int, fails *[]e1Fail, fn func()) (ok boo
 	dt := time.Since(t0)
 	da := allocated() - a0
 	ok = true
+	if pan == "" && (dt > e1TimeBudget || da > uint64(e1MemBase+e1MemPerByte*inputLen)) {
+		// neither wall-clock time nor the batched allocation statistics are properties of this call alone (loaded
+		// machine, GC, statistics flushed from earlier calls): a call over budget is repeated and only one that is
+		// over budget every time is reported
+		for k := 0; k < 3 && (dt > e1TimeBudget || da > uint64(e1MemBase+e1MemPerByte*inputLen)); k++ {
+			a1 := allocated()
+			t1 := time.Now()
+			_ = call(fn)
+			if d := time.Since(t1); d < dt {
+				dt = d
+			}
+			if d := allocated() - a1; d < da {
+				da = d
+			}
+		}
+	}
 	if pan != "" {
 		*fails = append(*fails, e1Fail{"C04", entry + " panic " + pan, "returns a structure or an error, never panics", entryFull + ": " + pan})
 		ok = false
